@@ -34,6 +34,8 @@ COMMON = ["-std=c++17", "-fno-omit-frame-pointer"]
 FLAVOURS = {
     # name: (compiler, cflags, cflags for core.cpp only (None = same), ldflags)
     "plain": ("g++", ["-O1", "-g1", "-D_GLIBCXX_ASSERTIONS", "-ftrivial-auto-var-init=pattern"], None, []),
+    # stored spline orders 0..4 instead of 0..3 (results up to order 8): thorough tier only
+    "plain4": ("g++", ["-O1", "-g1", "-D_GLIBCXX_ASSERTIONS", "-ftrivial-auto-var-init=pattern", "-DSIM_MAXORD=4"], None, []),
     "asan": ("clang++", ["-O1", "-g", "-fsanitize=address,undefined", "-fno-sanitize-recover=all",
                          "-ftrivial-auto-var-init=pattern", "-D_GLIBCXX_ASSERTIONS", "-DSIM_ASAN"], None,
              ["-fsanitize=address,undefined"]),
